@@ -8,6 +8,12 @@ use std::path::{Path, PathBuf};
 
 pub const VERIF_DIR: &str = "/verif";
 
+/// Where evidence and replay files go (default /verif; the mutation audit
+/// redirects it so that audits on scratch copies never touch /verif/evidence).
+pub fn out_dir() -> String {
+    std::env::var("VERIF_OUT_DIR").unwrap_or_else(|_| VERIF_DIR.to_string())
+}
+
 pub struct CheckResult {
     pub prop: &'static str,
     pub level: &'static str,
@@ -103,7 +109,7 @@ pub fn rust_test(v: &Violation) -> String {
 }
 
 pub fn write_replay(v: &Violation) -> PathBuf {
-    let dir = Path::new(VERIF_DIR).join("replays");
+    let dir = Path::new(&out_dir()).join("replays");
     let _ = std::fs::create_dir_all(&dir);
     let body = json!({
         "property": v.prop,
@@ -213,7 +219,7 @@ pub fn finish(ctx: &Ctx, mut res: CheckResult) -> i32 {
         "violations": unlisted.len(),
         "machinery_errors": res.machinery_errors,
     });
-    let evdir = Path::new(VERIF_DIR).join("evidence");
+    let evdir = Path::new(&out_dir()).join("evidence");
     let _ = std::fs::create_dir_all(&evdir);
     let evpath = evdir.join(format!("{}.json", res.prop));
     if let Err(e) = std::fs::write(&evpath, serde_json::to_string_pretty(&ev).unwrap()) {
